@@ -5,7 +5,13 @@
   handlers) over the generated tables CC/Gen/DrawTables.lean.
   Helper lemmas: CC/Proofs/Draw{IO,RoundTrip,Declarative}.lean.
 -/
-import CC.Proofs.DrawRoundTrip
+import CC.Proofs.DrawRT1
+import CC.Proofs.DrawRT2
+import CC.Proofs.DrawRT3
+import CC.Proofs.DrawRT4
+import CC.Proofs.DrawRT5
+import CC.Proofs.DrawRT6
+import CC.Proofs.DrawLift
 import CC.Proofs.DrawDeclarative
 namespace CC
 open CC.Draw
@@ -25,16 +31,16 @@ theorem C15_persistable_total :
 
 /-- The plumbing certificate (`roundTripShape`: which attribute feeds which constructor argument,
 under which keyword the value comes back, where the signs sit, that left-over value keys do not
-collide with constructor parameters) holds for every persistable class except the complex
-current source (C13's finding); `undictify_element` merges its keyword sources in the order the
+collide with constructor parameters) holds for every persistable class; `undictify_element` merges its keyword sources in the order the
 model assumes; `dictify_element` stores what the model assumes; every declarative handler
 builds the class whose own `type` string is the handler's key. -/
 theorem C15_tables :
-    (∀ n ∈ persistableClasses, n ≠ "ComplexCurrentSource" → (classInfo n).map roundTripShape = some true) ∧
-    Gen.undictifySteps = ["userparams", "name", "reverse", "circuit", "construct", "restore:segments",
+    (∀ n ∈ persistableClasses, (classInfo n).map roundTripShape = some true) ∧
+    Gen.undictifySteps = ["userparams", "name", "reverse", "circuit", "clear_flags_if_phi", "construct", "restore:segments",
       "restore:params", "restore:anchors", "restore:absanchors", "restore:transform", "restore:absdrop", "return"] ∧
     Gen.dictifySaved = ["_userparams", "segments", "params", "anchors", "absanchors", "transform", "absdrop"] ∧
     Gen.declDirections = [("right", "right"), ("left", "left"), ("up", "up"), ("down", "down")] ∧
+    Gen.declOneTerminalPlain = true ∧
     (∀ h ∈ Gen.declHandlers, h.typ = "lamp" ∨ (classInfo h.cls).map (·.typ) = some h.typ) ∧
     (∀ h ∈ Gen.declHandlers, h.cls ∈ declFrameClasses ∧ ∀ c, h.clsIfName = some c → c ∈ declFrameClasses) := by
   decide
@@ -46,20 +52,18 @@ constructor and the sign flip of the translator cancel. -/
 theorem C15_value_roundtrip (rev : Bool) (v : GQ) : savedVal rev v = v :=
   savedVal_eq GQ.neg_neg' rev v
 
-/-- Without the `deg` / `sin` flags the saved phase is the user's phase (so feeding it back
-reproduces it); with a flag set the second cycle applies the conversion to an already converted
-phase. -/
-theorem C15_phase_roundtrip_partial {K : Type} [Sub K] (halfPi : K) (toRad : K → K) :
-    (∀ phi, savedPhase halfPi toRad false false phi = phi) ∧
-    (∀ sin deg phi, savedPhase halfPi toRad sin deg (savedPhase halfPi toRad sin deg phi) =
-      phaseTrans toRad deg (phaseField halfPi sin (phaseTrans toRad deg (phaseField halfPi sin phi)))) :=
-  ⟨fun _ => rfl, fun _ _ _ => rfl⟩
+/-- The loader feeds the saved phase (radians, cosine reference) back with the `deg` / `sin` flags
+cleared, so the reloaded source saves the same phase again — for every flag combination. -/
+theorem C15_phase_roundtrip {K : Type} [Sub K] (halfPi ninety : K) (toRad : K → K) (sin deg : Bool) (phi : K) :
+    savedPhase halfPi ninety toRad false false (savedPhase halfPi ninety toRad sin deg phi) =
+      savedPhase halfPi ninety toRad sin deg phi :=
+  savedPhase_reload halfPi ninety toRad sin deg phi
 
 /-! ## one element, all values -/
 
 /-- the drawing elements of the persistable kinds, as the constructor calls that make them
-(valid values: real and non-negative where the component constructor checks it; no `deg` /
-`sin` flag; the complex current source only reversed) -/
+(valid values: real and non-negative where the component constructor checks it; every
+reversal flag; AC sources with any `deg` / `sin` flags, rectangular sources with any `deg`) -/
 inductive C15_Canonical : DElem → Prop where
   | vsrc (z : GQ) (rev : Bool) (name : String) (a b : Pt) :
       C15_Canonical ⟨"VoltageSource", [("V", .num z), ("name", .str name), ("reverse", .bool rev)], a, b⟩
@@ -67,20 +71,32 @@ inductive C15_Canonical : DElem → Prop where
       C15_Canonical ⟨"CurrentSource", [("I", .num z), ("name", .str name), ("reverse", .bool rev)], a, b⟩
   | cvsrc (z : GQ) (rev : Bool) (name : String) (a b : Pt) :
       C15_Canonical ⟨"ComplexVoltageSource", [("V", .num z), ("name", .str name), ("reverse", .bool rev)], a, b⟩
-  | cisrc (z : GQ) (name : String) (a b : Pt) :
-      C15_Canonical ⟨"ComplexCurrentSource", [("I", .num z), ("name", .str name), ("reverse", .bool true)], a, b⟩
+  | cisrc (z : GQ) (rev : Bool) (name : String) (a b : Pt) :
+      C15_Canonical ⟨"ComplexCurrentSource", [("I", .num z), ("name", .str name), ("reverse", .bool rev)], a, b⟩
   | acv (v w phi : GQ) (hv : v.im = 0) (hw : w.im = 0) (hw0 : ¬ w.re < 0) (hp : phi.im = 0) (rev : Bool)
       (name : String) (a b : Pt) :
       C15_Canonical ⟨"ACVoltageSource", [("V", .num v), ("w", .num w), ("phi", .num phi), ("name", .str name), ("reverse", .bool rev)], a, b⟩
   | aci (v w phi : GQ) (hv : v.im = 0) (hw : w.im = 0) (hw0 : ¬ w.re < 0) (hp : phi.im = 0) (rev : Bool)
       (name : String) (a b : Pt) :
       C15_Canonical ⟨"ACCurrentSource", [("I", .num v), ("w", .num w), ("phi", .num phi), ("name", .str name), ("reverse", .bool rev)], a, b⟩
+  | acvFlags (v w phi : GQ) (hv : v.im = 0) (hw : w.im = 0) (hw0 : ¬ w.re < 0) (hp : phi.im = 0) (deg sin rev : Bool)
+      (name : String) (a b : Pt) :
+      C15_Canonical ⟨"ACVoltageSource", [("V", .num v), ("w", .num w), ("phi", .num phi), ("deg", .bool deg), ("sin", .bool sin), ("name", .str name), ("reverse", .bool rev)], a, b⟩
+  | aciFlags (v w phi : GQ) (hv : v.im = 0) (hw : w.im = 0) (hw0 : ¬ w.re < 0) (hp : phi.im = 0) (deg sin rev : Bool)
+      (name : String) (a b : Pt) :
+      C15_Canonical ⟨"ACCurrentSource", [("I", .num v), ("w", .num w), ("phi", .num phi), ("deg", .bool deg), ("sin", .bool sin), ("name", .str name), ("reverse", .bool rev)], a, b⟩
   | rectv (v w phi : GQ) (hv : v.im = 0) (hw : w.im = 0) (hw0 : ¬ w.re < 0) (hp : phi.im = 0) (rev : Bool)
       (name : String) (a b : Pt) :
       C15_Canonical ⟨"RectVoltageSource", [("V", .num v), ("w", .num w), ("phi", .num phi), ("name", .str name), ("reverse", .bool rev)], a, b⟩
   | recti (v w phi : GQ) (hv : v.im = 0) (hw : w.im = 0) (hw0 : ¬ w.re < 0) (hp : phi.im = 0) (rev : Bool)
       (name : String) (a b : Pt) :
       C15_Canonical ⟨"RectCurrentSource", [("I", .num v), ("w", .num w), ("phi", .num phi), ("name", .str name), ("reverse", .bool rev)], a, b⟩
+  | rectvDeg (v w phi : GQ) (hv : v.im = 0) (hw : w.im = 0) (hw0 : ¬ w.re < 0) (hp : phi.im = 0) (deg rev : Bool)
+      (name : String) (a b : Pt) :
+      C15_Canonical ⟨"RectVoltageSource", [("V", .num v), ("w", .num w), ("phi", .num phi), ("deg", .bool deg), ("name", .str name), ("reverse", .bool rev)], a, b⟩
+  | rectiDeg (v w phi : GQ) (hv : v.im = 0) (hw : w.im = 0) (hw0 : ¬ w.re < 0) (hp : phi.im = 0) (deg rev : Bool)
+      (name : String) (a b : Pt) :
+      C15_Canonical ⟨"RectCurrentSource", [("I", .num v), ("w", .num w), ("phi", .num phi), ("deg", .bool deg), ("name", .str name), ("reverse", .bool rev)], a, b⟩
   | res (z : GQ) (him : z.im = 0) (hpos : ¬ z.re < 0) (rev : Bool) (name : String) (a b : Pt) :
       C15_Canonical ⟨"Resistor", [("R", .num z), ("name", .str name), ("reverse", .bool rev)], a, b⟩
   | cond (z : GQ) (him : z.im = 0) (hpos : ¬ z.re < 0) (rev : Bool) (name : String) (a b : Pt) :
@@ -95,20 +111,25 @@ inductive C15_Canonical : DElem → Prop where
   | line (rev : Bool) (a b : Pt) : C15_Canonical ⟨"Line", [("reverse", .bool rev)], a, b⟩
 
 /-- **Round trip of one element, for all values**: for every persistable kind, every value,
-reversal flag, name and position, saving the element (with its translated component as circuit
-section) and loading it back gives an element that (B) translates to the same component,
-(F) is a fixed point of further save/load cycles, (S) keeps class, anchors, name, reversal flag
-and node id — evaluated on the interpretive model over the generated tables. -/
-theorem C15_roundtrip_partial (π : Rat) (d : DElem) (h : C15_Canonical d) : ElemStable π d := by
+reversal flag, `deg` / `sin` flag, name and position, saving the element (with its translated
+component as circuit section) and loading it back gives an element that (B) translates to the
+same component for any terminal names, (F) is a fixed point of further save/load cycles,
+(S) keeps class, anchors, name, reversal flag and node id — evaluated on the interpretive model
+over the generated tables. -/
+theorem C15_roundtrip_element (π : Rat) (d : DElem) (h : C15_Canonical d) : ElemStable π d := by
   cases h with
   | vsrc z rev name a b => exact stable_VoltageSource π z rev name a b
   | isrc z rev name a b => exact stable_CurrentSource π z rev name a b
   | cvsrc z rev name a b => exact stable_ComplexVoltageSource π z rev name a b
-  | cisrc z name a b => exact stable_ComplexCurrentSource_reversed π z name a b
+  | cisrc z rev name a b => exact stable_ComplexCurrentSource π z rev name a b
   | acv v w phi hv hw hw0 hp rev name a b => exact stable_ACVoltageSource π v w phi hv hw hw0 hp rev name a b
   | aci v w phi hv hw hw0 hp rev name a b => exact stable_ACCurrentSource π v w phi hv hw hw0 hp rev name a b
+  | acvFlags v w phi hv hw hw0 hp deg sin rev name a b => exact stable_ACVoltageSource_flags π v w phi hv hw hw0 hp deg sin rev name a b
+  | aciFlags v w phi hv hw hw0 hp deg sin rev name a b => exact stable_ACCurrentSource_flags π v w phi hv hw hw0 hp deg sin rev name a b
   | rectv v w phi hv hw hw0 hp rev name a b => exact stable_RectVoltageSource π v w phi hv hw hw0 hp rev name a b
   | recti v w phi hv hw hw0 hp rev name a b => exact stable_RectCurrentSource π v w phi hv hw hw0 hp rev name a b
+  | rectvDeg v w phi hv hw hw0 hp deg rev name a b => exact stable_RectVoltageSource_deg π v w phi hv hw hw0 hp deg rev name a b
+  | rectiDeg v w phi hv hw hw0 hp deg rev name a b => exact stable_RectCurrentSource_deg π v w phi hv hw hw0 hp deg rev name a b
   | res z him hpos rev name a b => exact stable_Resistor π z him hpos rev name a b
   | cond z him hpos rev name a b => exact stable_Conductance π z him hpos rev name a b
   | cap z him hpos rev name a b => exact stable_Capacitor π z him hpos rev name a b
@@ -124,13 +145,30 @@ example :
                     value := [("V", .num ⟨5, 0⟩), ("R", .num ⟨0, 0⟩), ("w", .num ⟨0, 0⟩), ("phi", .num ⟨0, 0⟩)] }) := by
   decide +kernel
 
-/-- **Any number of cycles** (per element): after `n ≥ 1` save/load cycles the element still
+/-- **Any number of cycles, one element**: after `n ≥ 1` save/load cycles the element still
 translates to the component of the original element. -/
-theorem C15_stable (π : Rat) (d : DElem) (h : C15_Canonical d) (n : Nat) (la lb : String) :
+theorem C15_stable_element (π : Rat) (d : DElem) (h : C15_Canonical d) (n : Nat) (la lb : String) :
     (do elemComp π (← reloadN π [la, lb] (n + 1) d) [la, lb]) = elemComp π d [la, lb] :=
-  elem_cycles_stable (C15_roundtrip_partial π d h) n la lb
+  elem_cycles_stable (C15_roundtrip_element π d h) n la lb
 
-/-- **Induction over cycles, whole drawings**: if one save/load cycle keeps the translated circuit
+/-! ## whole drawings -/
+
+/-- **Round trip of a drawing**: for every drawing over the persistable kinds (any values, reversal
+and `deg` / `sin` flags) whose element names are unique (wires are anonymous), for every set
+iteration order: one save/load cycle yields a drawing that translates to the *same* circuit
+(ids, kinds, values, terminal order, node names, reference node). -/
+theorem C15_roundtrip (π : Rat) (ord : SetOrd Pt) (d d' : List DElem)
+    (hcan : ∀ e ∈ d, C15_Canonical e) (hnames : NamesWF π d) (h : saveLoad π ord d = .ok d') :
+    circuitOf π ord d' = circuitOf π ord d :=
+  saveLoad_roundtrip π ord d d' (fun e he => C15_roundtrip_element π e (hcan e he)) hnames h
+
+/-- **Any number of cycles**: the same after `n` save/load cycles. -/
+theorem C15_stable (π : Rat) (ord : SetOrd Pt) (n : Nat) (d d' : List DElem)
+    (hcan : ∀ e ∈ d, C15_Canonical e) (hnames : NamesWF π d) (h : cycles π ord n d = .ok d') :
+    circuitOf π ord d' = circuitOf π ord d :=
+  (cycles_roundtrip π ord n d d' ⟨fun e he => C15_roundtrip_element π e (hcan e he), hnames⟩ h).2
+
+/-- **Induction over cycles** (generic form): if one save/load cycle keeps the translated circuit
 on a domain that it maps into itself, then so does any number of cycles. -/
 theorem C15_cycles (π : Rat) (ord : SetOrd Pt) (Dom : List DElem → Prop)
     (hstep : ∀ d, Dom d → ∃ d', saveLoad π ord d = .ok d' ∧ Dom d' ∧ circuitOf π ord d' = circuitOf π ord d) :
@@ -138,33 +176,22 @@ theorem C15_cycles (π : Rat) (ord : SetOrd Pt) (Dom : List DElem → Prop)
       ∃ d', cycles π ord n d = .ok d' ∧ Dom d' ∧ circuitOf π ord d' = circuitOf π ord d :=
   cycles_preserve π ord Dom hstep
 
-/-! ## whole drawings: full statement and counterexample -/
-
-/-- Full statement: one save/load cycle of any drawing over the persistable kinds keeps the
-translated circuit. -/
-def C15_roundtrip_statement : Prop :=
-  ∀ (π : Rat) (ord : SetOrd Pt) (d d' : List DElem),
-    (∀ e ∈ d, e.cls ∈ persistableClasses) → saveLoad π ord d = .ok d' →
-      circuitOf π ord d' = circuitOf π ord d
-
-/-- the drawing of the counterexample: one AC voltage source of 30°, `deg=True` -/
+/-- the drawing of the former counterexample (finding 3, repaired by 5d18a69): an AC voltage
+source of 30°, `deg=True`, a resistor, two wires and a ground -/
 def C15_driftDrawing : List DElem :=
-  [⟨"ACVoltageSource", [("V", .num 3), ("w", .num 100), ("phi", .num 30), ("deg", .bool true),
-      ("name", .str "X"), ("reverse", .bool false)], ⟨0, 0⟩, ⟨0, 5⟩⟩]
+  [⟨"ACVoltageSource", [("V", .num 3), ("w", .num 100), ("phi", .num 30), ("deg", .bool true), ("sin", .bool true),
+      ("name", .str "X"), ("reverse", .bool false)], ⟨0, 0⟩, ⟨0, 5⟩⟩,
+   ⟨"Resistor", [("R", .num 10), ("name", .str "R1"), ("reverse", .bool false)], ⟨0, 5⟩, ⟨5, 5⟩⟩,
+   ⟨"Line", [("reverse", .bool false)], ⟨5, 5⟩, ⟨5, 0⟩⟩, ⟨"Line", [("reverse", .bool false)], ⟨5, 0⟩, ⟨0, 0⟩⟩,
+   ⟨"Ground", [("name", .str "0")], ⟨0, 0⟩, ⟨0, 0⟩⟩]
 
-/-- The current tree violates it: the phase of an AC source drawn with `deg=True` is converted
-again on every load (30° ↦ π/6 ↦ π²/1080 ↦ …). -/
-theorem C15_drift_counterexample : ¬ C15_roundtrip_statement := by
-  intro h
-  have hd : ∃ d', saveLoad C15_pi64 C15_listOrder C15_driftDrawing = .ok d' ∧
-      circuitOf C15_pi64 C15_listOrder d' ≠ circuitOf C15_pi64 C15_listOrder C15_driftDrawing := by
-    refine ⟨[⟨"ACVoltageSource", [("V", .num 3), ("w", .num 100),
-        ("phi", .num ⟨(884279719003555 : Rat) / 1688849860263936, 0⟩), ("deg", .bool true),
-        ("name", .str "X"), ("reverse", .bool false), ("R", .num ⟨0, 0⟩)], ⟨0, 0⟩, ⟨0, 5⟩⟩], ?_, ?_⟩
-    · decide +kernel
-    · decide +kernel
-  obtain ⟨d', h1, h2⟩ := hd
-  exact h2 (h C15_pi64 C15_listOrder C15_driftDrawing d' (by decide) h1)
+/-- regression and non-vacuity: that drawing is saved, reloaded three times and still translates
+to its (successfully translated) original circuit -/
+example :
+    (do circuitOf C15_pi64 C15_listOrder (← cycles C15_pi64 C15_listOrder 3 C15_driftDrawing))
+      = circuitOf C15_pi64 C15_listOrder C15_driftDrawing ∧
+    (circuitOf C15_pi64 C15_listOrder C15_driftDrawing).toOption.isSome = true := by
+  decide +kernel
 
 /-! ## declarative descriptions -/
 
